@@ -2,6 +2,7 @@ import Rangers.Proofs.TrieIterBytes
 import Rangers.Proofs.TrieCompact
 import Rangers.Proofs.TrieYPRoot
 import Rangers.Proofs.TrieTotal
+import Rangers.Proofs.TrieStore
 import Rangers.Basic.Keccak
 /-!
 # C02 — the state trie root is the canonical Merkle-Patricia commitment of its content
@@ -144,6 +145,32 @@ theorem enumeration_exists (ops : List Op) :
 -- non-vacuity of the hypothesis on `H`: the executable Keccak-256 satisfies it
 set_option maxRecDepth 100000 in
 example : Keccak.keccak256 [0x80] = emptyRoot := by decide +kernel
+
+/-! ## commit / reopen through the node database -/
+
+/-- **commit + reopen is a no-op on the trie** (`expand_collapse`): collapsing a minimal-form trie
+    into hash-addressed store entries (`hasher.store` with a database: nodes of ≥ 32 bytes and the
+    root, children embedded or referenced by hash, keys hex-prefix encoded) and expanding the root
+    hash again (`resolveHash`/`expandNode`, every reference followed) returns the very same trie —
+    provided no two different nodes written by this commit share a hash (`Functional`; the
+    "no collision among stored nodes" hypothesis, explicit because `NodeDatabase.insert` keeps
+    the first entry for a hash). The driver executes `reload` on every `reopen`/`dbcommit`. -/
+theorem expand_collapse (H : Bytes → Bytes) (t : Node) (ht : WFRoot t)
+    (hnc : Functional (commitStore H t)) : reload H t = some t :=
+  reload_eq H t ht hnc
+
+/-- …in particular after any history -/
+theorem reopen_noop_after_history (H : Bytes → Bytes) (ops : List Op)
+    (hnc : Functional (commitStore H (run ops))) : reload H (run ops) = some (run ops) :=
+  reload_eq H _ (run_wf ops) hnc
+
+-- non-vacuity: a commit that writes a single node cannot collide, whatever `H` is
+example (H : Bytes → Bytes) : Functional (commitStore H (run [.upd [1] [2]])) := by
+  intro e1 h1 e2 h2 _
+  have hs : commitStore H (run [.upd [1] [2]]) = [(H (enc H (run [.upd [1] [2]])), collapse H (run [.upd [1] [2]]))] := rfl
+  rw [hs] at h1 h2
+  simp only [List.mem_singleton] at h1 h2
+  rw [h1, h2]
 
 /-! ## hex-prefix (compact) key encoding -/
 
